@@ -27,7 +27,7 @@ class Fresh:
 
 
 
-RULE_EXTRA = ('rules in the documented input shorthands (scalar, flat list, bare values) as well as nested Mod lists; a group offered by two rules; a group equal to what the residue already carries (append / overwrite).')
+RULE_EXTRA = ('rules in the documented input shorthands (scalar, flat list, bare values) as well as nested Mod lists; a group offered by two rules; two groups equal as sets and different as lists (a modification once and twice); a group equal to what the residue already carries (append / overwrite).')
 
 def rand_rule(rnd, fresh, variable):
     st = rnd.choice(["letter", "letter", "lookbehind", "literal2"])
@@ -190,6 +190,21 @@ def run(tier, seed, rep):
             if c_ < 0.15 and len(irules) >= 2:
                 # the same group offered by two rules (it is one offered group: each form still comes once)
                 irules[1]["groups"][0] = _copy.deepcopy(irules[0]["groups"][0])
+            elif c_ < 0.45 and c_ >= 0.3:
+                # two alternative groups of one rule (or of two rules) made of the same modification, once and twice: they
+                # are equal as SETS of modifications and different as groups - both must be offered
+                g0 = irules[0]["groups"][0]
+                twice = _copy.deepcopy(g0) + _copy.deepcopy(g0[:1])
+                if len(irules) >= 2 and rnd.random() < 0.5:
+                    x_, y_ = rnd.sample(sorted(set(A["seq"])) + list(ALPHA[:2]), 2)
+                    if x_ != y_:
+                        for r_ in irules[:2]:
+                            r_["style"], r_["before"], r_["a"], r_["b"] = "letter", [], "", ""
+                        irules[0]["cls"], irules[1]["cls"] = [x_], [x_, y_]
+                        irules[1]["groups"] = [twice]
+                        irules = distinct_keys(irules, regex_of)
+                else:
+                    irules[0]["groups"] = irules[0]["groups"][:2] + [twice]
             elif c_ < 0.3 and mode != "skip" and A["internal"]:
                 # a rule offers exactly what a residue already carries (append / overwrite modes reach modified residues)
                 e_ = rnd.choice(A["internal"])
